@@ -171,7 +171,7 @@ theorem list_refines {s v p m} {e : Fixed} {lw : Nat} {es : List (List Nat)}
       by_cases hov : 256 ^ lw ≤ es.length + 1
       · simp only [hov, if_true]
         have := h2 (by omega) (by simpa using hov)
-        rw [this, unitRes_err]; exact ⟨m, rfl, fun _ => rfl⟩
+        rw [this, unitRes_err]; exact Or.inr rfl
       · simp only [hov, if_false]
         intro hroom
         rw [← insertAt_end] at hroom ⊢
@@ -185,10 +185,10 @@ theorem list_refines {s v p m} {e : Fixed} {lw : Nat} {es : List (List Nat)}
     · simp only [hx, if_true]
       obtain ⟨h1, h2, h3⟩ := list_insertAll_refines F c i [x] (by simpa using hx)
       by_cases hi : es.length < i
-      · simp only [hi, if_true]; rw [h1 hi, unitRes_err]; exact ⟨m, rfl, fun _ => rfl⟩
+      · simp only [hi, if_true]; rw [h1 hi, unitRes_err]; exact Or.inr rfl
       · simp only [hi, if_false]
         by_cases hov : 256 ^ lw ≤ es.length + 1
-        · simp only [hov, if_true]; rw [h2 hi (by simpa using hov), unitRes_err]; exact ⟨m, rfl, fun _ => rfl⟩
+        · simp only [hov, if_true]; rw [h2 hi (by simpa using hov), unitRes_err]; exact Or.inr rfl
         · simp only [hov, if_false]
           intro hroom
           obtain ⟨m', hm', F', ho, hr⟩ := h3 hi (by simpa using hov) hroom
@@ -201,10 +201,10 @@ theorem list_refines {s v p m} {e : Fixed} {lw : Nat} {es : List (List Nat)}
     · simp only [hx, if_true]
       obtain ⟨h1, h2, h3⟩ := list_insertAll_refines F c i xs (by simpa [List.all_eq_true] using hx)
       by_cases hi : es.length < i
-      · simp only [hi, if_true]; rw [h1 hi, unitRes_err]; exact ⟨m, rfl, fun _ => rfl⟩
+      · simp only [hi, if_true]; rw [h1 hi, unitRes_err]; exact Or.inr rfl
       · simp only [hi, if_false]
         by_cases hov : 256 ^ lw ≤ es.length + xs.length
-        · simp only [hov, if_true]; rw [h2 hi hov, unitRes_err]; exact ⟨m, rfl, fun _ => rfl⟩
+        · simp only [hov, if_true]; rw [h2 hi hov, unitRes_err]; exact Or.inr rfl
         · simp only [hov, if_false]
           intro hroom
           obtain ⟨m', hm', F', ho, hr⟩ := h3 hi hov hroom
@@ -215,7 +215,7 @@ theorem list_refines {s v p m} {e : Fixed} {lw : Nat} {es : List (List Nat)}
     simp only [Spec.applyNode, applyAt]
     obtain ⟨_, h2, h3⟩ := list_removeRange_refines F c i (i + 1)
     by_cases hi : es.length < i + 1
-    · simp only [hi, if_true]; rw [h2 (by omega) hi, unitRes_err]; exact ⟨m, rfl, fun _ => rfl⟩
+    · simp only [hi, if_true]; rw [h2 (by omega) hi, unitRes_err]; exact Or.inr rfl
     · simp only [hi, if_false]
       intro _
       obtain ⟨m', hm', F', ho, hr, _⟩ := h3 (by omega) hi
@@ -225,10 +225,10 @@ theorem list_refines {s v p m} {e : Fixed} {lw : Nat} {es : List (List Nat)}
     simp only [Spec.applyNode, applyAt]
     obtain ⟨h1, h2, h3⟩ := list_removeRange_refines F c lo hi
     by_cases hr1 : hi < lo
-    · simp only [hr1, if_true]; rw [h1 hr1, unitRes_err]; exact ⟨m, rfl, fun _ => rfl⟩
+    · simp only [hr1, if_true]; rw [h1 hr1, unitRes_err]; exact Or.inr rfl
     · simp only [hr1, if_false]
       by_cases hr2 : es.length < hi
-      · simp only [hr2, if_true]; rw [h2 hr1 hr2, unitRes_err]; exact ⟨m, rfl, fun _ => rfl⟩
+      · simp only [hr2, if_true]; rw [h2 hr1 hr2, unitRes_err]; exact Or.inr rfl
       · simp only [hr2, if_false]
         intro _
         obtain ⟨m', hm', F', ho, hr, _⟩ := h3 hr1 hr2
